@@ -636,8 +636,11 @@ class LookupBase:
     def lookup(self, required, provided, name='', default=None):
         if not isinstance(name, str):
             raise ValueError('name is not a string')
-        cache = self._getcache(provided, name)
+        # Resolve a lazy ``required`` before fetching the cache: iterating
+        # it can have side effects, such as clearing our caches (the C
+        # implementation does the same).
         required = tuple(required)
+        cache = self._getcache(provided, name)
         if len(required) == 1:
             result = cache.get(required[0], _not_in_mapping)
         else:
@@ -690,12 +693,13 @@ class LookupBase:
         return default
 
     def lookupAll(self, required, provided):
+        # Resolve before getting the cache. See the note in lookup.
+        required = tuple(required)
         cache = self._mcache.get(provided)
         if cache is None:
             cache = {}
             self._mcache[provided] = cache
 
-        required = tuple(required)
         result = cache.get(required, _not_in_mapping)
         if result is _not_in_mapping:
             result = self._uncached_lookupAll(required, provided)
@@ -704,12 +708,13 @@ class LookupBase:
         return result
 
     def subscriptions(self, required, provided):
+        # Resolve before getting the cache. See the note in lookup.
+        required = tuple(required)
         cache = self._scache.get(provided)
         if cache is None:
             cache = {}
             self._scache[provided] = cache
 
-        required = tuple(required)
         result = cache.get(required, _not_in_mapping)
         if result is _not_in_mapping:
             result = self._uncached_subscriptions(required, provided)
